@@ -184,6 +184,13 @@ func Render(v interface{}) string {
 	return sb.String()
 }
 
+// RenderFull is Render without any clipping (used where every byte matters).
+func RenderFull(v interface{}) string {
+	var sb strings.Builder
+	walk(&sb, reflect.ValueOf(v), false, 0)
+	return sb.String()
+}
+
 // Hash is a deterministic 64-bit hash of the full value (no clipping, maps sorted, nil and empty collections alike).
 func Hash(v interface{}) uint64 {
 	h := fnv.New64a()
